@@ -282,6 +282,9 @@ func (w *worker[T, JobType]) processNextJob() error {
 	}
 
 	if j.IsClosed() {
+		// a job cancelled while it was queued leaves the queue without ever being in flight: no completion
+		// follows, so the callers waiting for the queue to drain are released from here
+		w.releaseWaiters(w.curProcessing.Load())
 		return nil
 	}
 
